@@ -1,0 +1,28 @@
+//go:build verif
+
+// Package verifhook provides named instrumentation points for external verification tooling
+// (crash injection, schedule perturbation, event traces). This file is only compiled with `-tags verif`.
+package verifhook
+
+import "sync/atomic"
+
+// Enabled reports whether the hooks are compiled in.
+const Enabled = true
+
+var handler atomic.Pointer[func(site string)]
+
+// Set installs (or, with nil, removes) the handler called at every site.
+func Set(f func(site string)) {
+	if f == nil {
+		handler.Store(nil)
+		return
+	}
+	handler.Store(&f)
+}
+
+// At marks a named site and calls the installed handler, if any.
+func At(site string) {
+	if h := handler.Load(); h != nil {
+		(*h)(site)
+	}
+}
